@@ -308,6 +308,15 @@ def generate(repo):
     except StopIteration:
         facts['be_pop_before_flag'] = False
 
+    cl = [l.strip() for l in sk['be_cleanup_invalidated_thread_contexts']]
+    try:
+        i_rep = next(i for i, l in enumerate(cl) if '_check_failure_counter(' in l)
+        i_rm = next(i for i, l in enumerate(cl) if 'remove_shared_invalidated_thread_context(' in l)
+        i_wh = next(i for i, l in enumerate(cl) if l.startswith('WHILE'))
+        facts['be_report_before_ctx_removal'] = i_wh < i_rep < i_rm
+    except StopIteration:
+        facts['be_report_before_ctx_removal'] = False
+
     return sk, facts, notes
 
 def emit(sk, facts, notes, out):
